@@ -1,4 +1,397 @@
-/- C07 — property theorems (under construction). -/
+/-
+  C07 — query optimisations never change the answer.
+  Index pre-selection (`TryFilterIndex` / `GetPreFilteredData`), filter un-nesting
+  (`optimizeFilterIndentation`) and the regular-expression heuristic (`hasRegexpCharacters`).
+  Property theorems only; helper lemmas live in Lmd/Lemmas.
+-/
 import Lmd.Props.C01
+import Lmd.Lemmas.Index
+
 namespace Lmd.C07
+
+open Lmd.Lemmas
+
+/-! ## Index pre-selection -/
+
+/-- Heart of index soundness, generic in the leaf function `f` and for one fixed row with index key `k`:
+    `sat` says which filter terms the row satisfies.  If every term of the filter that the index can use
+    and that the row satisfies lists `k`, and `TryFilterIndex` succeeds on the request's filter list with
+    `keys`, then a row satisfying all filters has its key in `keys` - for any nesting depth of And/Or
+    groups (negated nodes make the index unusable, an And group needs one usable member, an Or group
+    needs all members usable). -/
+theorem tryIndex_superset (f : Leaf → Option (List String)) (sat : Leaf → Bool) (k : String)
+    (fs : List Filter) (keys : List String)
+    (hleaf : ∀ l ∈ leavesOfList fs, ∀ ks, f l = some ks → sat l = true → k ∈ ks)
+    (hidx : tryIndexGroup f false fs = some keys) (hsat : semAllG sat fs = true) : k ∈ keys :=
+  tryIndexGroup_sound f sat k fs keys hleaf hidx hsat
+
+/-- The same for an Or group (`breakOnNone = true`): the key of a row satisfying at least one member is listed. -/
+theorem tryIndex_superset_or (f : Leaf → Option (List String)) (sat : Leaf → Bool) (k : String)
+    (fs : List Filter) (found n : Nat) (keys : List String)
+    (hleaf : ∀ l ∈ leavesOfList fs, ∀ ks, f l = some ks → sat l = true → k ∈ ks)
+    (hidx : tryIndex f true fs found = some (n, keys)) (hsat : semAnyG sat fs = true) : k ∈ keys :=
+  (tryIndex_sound f sat k fs true found n keys hleaf hidx).2.2 rfl hsat
+
+/-- `tryIndex_superset` for the real filter semantics: `sat` is leaf matching on the row's view and the
+    filter list is satisfied in the sense of `semList`. -/
+theorem tryIndex_superset_sem (q : Quirks) (v : View) (f : Leaf → Option (List String)) (k : String)
+    (fs : List Filter) (keys : List String)
+    (hleaf : ∀ l ∈ leavesOfList fs, ∀ ks, f l = some ks → matchLeaf q v l = true → k ∈ ks)
+    (hidx : tryIndexGroup f false fs = some keys) (hsat : semList q v fs = true) : k ∈ keys := by
+  apply tryIndex_superset f (matchLeaf q v) k fs keys hleaf hidx
+  rw [semAllG_matchLeaf, ← semList_eq_semAll]; exact hsat
+
+/-- non-vacuity: on the demo dataset `Filter: name = a` + `Filter: state = 1` is usable for the host index
+    (one usable member of the conjunction suffices) and yields the key list `[a]` -/
+example : tryIndexGroup (leafIndexKeys Demo.cx .hosts Demo.hosts) false
+    [.leaf (Demo.nameLeaf .eq "a") false, .leaf Demo.stateLeaf false] = some ["a"] := by
+  simp [tryIndexGroup, tryIndex, leafIndexKeys, Demo.nameLeaf, Demo.nameCol, Demo.stateLeaf, Demo.stateCol]
+
+/-- non-vacuity: an Or group is usable only if all members are; a negated member makes it unusable -/
+example : tryIndexGroup (leafIndexKeys Demo.cx .hosts Demo.hosts) false
+    [.grp false [.leaf (Demo.nameLeaf .eq "a") false, .leaf (Demo.nameLeaf .eq "B") false] false] = some ["a", "B"]
+  ∧ tryIndexGroup (leafIndexKeys Demo.cx .hosts Demo.hosts) false
+    [.grp false [.leaf (Demo.nameLeaf .eq "a") false, .leaf (Demo.nameLeaf .eq "B") true] false] = none := by
+  constructor <;> simp [tryIndexGroup, tryIndex, leafIndexKeys, Demo.nameLeaf, Demo.nameCol]
+
+/-- Case-insensitive host look-up: a stored host name `n` that equals `x` under `strings.EqualFold` is found
+    in one of the three places the index looks at - `x` itself, its lower-case form, or the names filed
+    under that lower-case form. -/
+theorem equalFold_mem_lowerIndex_keys (names : List String) (n x : String) (hn : n ∈ names)
+    (h : equalFold n x = true) : n ∈ x :: goLower x :: lowerIndex names (goLower x) :=
+  mem_lowerIndex_keys hn (equalFold_goLower h)
+
+example : equalFold "ABC" "abc" = true ∧ "ABC" ∈ lowerIndex ["x", "ABC"] (goLower "abc") := by decide
+
+/-- Leaf soundness, hosts table: for `name = x` and `name =~ x` on the table's own string column `name`
+    the keys the leaf contributes contain the name of every indexed host row the leaf accepts. -/
+theorem leafKeys_hosts_name_sound (q : Quirks) (cx : Ctx) (t : Table) (r : Row) (l : Leaf) (ks : List String)
+    (hl : StrLeaf t l) (hn : l.col.name = "name") (ht : t.name = "hosts")
+    (hmem : r.str t "name" ∈ hostNames cx)
+    (hks : leafIndexKeys cx .hosts t l = some ks) (hm : matchLeaf q (mkView cx t r) l = true) :
+    r.str t "name" ∈ ks :=
+  leafSound_hosts_name q cx t r l hl hn ht hmem ks hks hm
+
+/-- Leaf soundness, services table: for `host_name = x` (and `host_name ~ x` when the host is a known host)
+    the contributed keys contain the host name of every service row the leaf accepts. -/
+theorem leafKeys_services_host_name_sound (q : Quirks) (cx : Ctx) (t : Table) (r : Row) (l : Leaf) (ks : List String)
+    (hl : StrLeaf t l) (hn : l.col.name = "host_name")
+    (hmem : l.op = .eq ∨ r.str t "host_name" ∈ hostNames cx)
+    (hks : leafIndexKeys cx .services t l = some ks) (hm : matchLeaf q (mkView cx t r) l = true) :
+    r.str t "host_name" ∈ ks :=
+  leafSound_services_host_name q cx t r l hl hn hmem ks hks hm
+
+/-- Leaf soundness, any table with a one-column primary key: for `key = x` the contributed key list
+    contains the key of every row the leaf accepts. -/
+theorem leafKeys_primary_sound (q : Quirks) (cx : Ctx) (t : Table) (r : Row) (l : Leaf) (key : String) (ks : List String)
+    (hl : StrLeaf t l) (hpk : t.primaryKey = [key])
+    (hks : leafIndexKeys cx .primary t l = some ks) (hm : matchLeaf q (mkView cx t r) l = true) :
+    r.str t key ∈ ks :=
+  leafSound_primary q cx t r l key hl hpk ks hks hm
+
+/-- Leaf soundness, group look-ups on the hosts table (`groups >= g`, `groups ~ pattern`): if every group the
+    host lists has a hostgroup row that lists the host as member, and hostgroups are keyed by unique
+    names, the members collected from the hostgroups contain the host. -/
+theorem leafKeys_hosts_groups_sound (q : Quirks) (cx : Ctx) (t : Table) (r : Row) (l : Leaf) (gs ks : List String)
+    (hl : ListLeaf cx t r l gs) (hn : l.col.name = "groups")
+    (hg : HostInGroups cx (r.str t "name") gs) (hk : GroupKeyed cx "hostgroups")
+    (hks : leafIndexKeys cx .hosts t l = some ks) (hm : matchLeaf q (mkView cx t r) l = true) :
+    r.str t "name" ∈ ks :=
+  leafSound_hosts_groups q cx t r l gs hl hn hg hk ks hks hm
+
+/-- Leaf soundness for every shape the index can use (`Covered` lists them with their assumptions: `name`,
+    `name_lc`, `groups` on hosts; `host_name`, `host_name_lc`, `host_groups`, `groups` on services; the key
+    column on single-key tables): the contributed keys contain the index key of every row the leaf accepts. -/
+theorem leafIndexKeys_sound (q : Quirks) (cx : Ctx) (t : Table) (r : Row) (kind : IndexKind) (l : Leaf)
+    (ks : List String) (hk : indexKind? t = some kind) (hc : Covered cx t r kind l)
+    (hks : leafIndexKeys cx kind t l = some ks) (hm : matchLeaf q (mkView cx t r) l = true) :
+    indexKey kind t r ∈ ks :=
+  covered_sound q cx t r kind l hk hc ks hks hm
+
+/-- The model's recorded data assumption `groupsConsistent` supplies the group hypothesis of the hosts
+    table: every stored host is listed by the hostgroups it names. -/
+theorem groupsConsistent_hostInGroups (cx : Ctx) (h : groupsConsistent cx.schema cx.b = true)
+    (r : Row) (hr : r ∈ cx.b.rows "hosts") :
+    HostInGroups cx (r.str (cx.table "hosts") "name") (r.strList "groups") :=
+  hostInGroups_of_groupsConsistent cx h r hr
+
+/-- `groupsConsistent` likewise supplies the group hypothesis of the services table: every stored service is
+    listed by the servicegroups it names. -/
+theorem groupsConsistent_svcInGroups (cx : Ctx) (h : groupsConsistent cx.schema cx.b = true)
+    (r : Row) (hr : r ∈ cx.b.rows "services") :
+    SvcInGroups cx (r.str (cx.table "services") "host_name") (r.str (cx.table "services") "description")
+      (r.strList "groups") :=
+  svcInGroups_of_groupsConsistent cx h r hr
+
+/-- non-vacuity: the demo backend satisfies `groupsConsistent`, and host `a` is in group `g` -/
+example : groupsConsistent Demo.cx.schema Demo.cx.b = true ∧ Demo.rowA ∈ Demo.cx.b.rows "hosts"
+    ∧ Demo.rowA.strList "groups" = ["g"] := ⟨by decide, by simp [Demo.cx, Backend.rows, Demo.backend], rfl⟩
+
+/-- non-vacuity: `Filter: name = a` on the demo hosts table is a well-typed string leaf -/
+example : StrLeaf Demo.hosts (Demo.nameLeaf .eq "a") := ⟨by decide, rfl, rfl, rfl⟩
+
+/-- Completeness of `GetPreFilteredData`.  Assume the rows have pairwise different keys, the hosts /
+    services tables have their usual primary keys, and every filter term the index can use is of a
+    `Covered` shape for the row (well-typed column plus the data assumption of that shape).  Then every
+    stored row that satisfies the filter list is among the candidates.
+    Partial: terms on ill-typed or optional columns named like index columns, and backends whose group
+    tables disagree with the `groups` lists, are excluded by `Covered`. -/
+theorem preFiltered_complete_partial (q : Quirks) (cx : Ctx) (t : Table) (rows : List Row) (fs : List Filter)
+    (r : Row) (hnd : (rows.map (Row.key t)).Nodup) (hshape : KeyShape t) (hr : r ∈ rows)
+    (hcov : ∀ kind, indexKind? t = some kind → ∀ l ∈ leavesOfList fs,
+      (leafIndexKeys cx kind t l).isSome → Covered cx t r kind l)
+    (hs : semList q (mkView cx t r) fs = true) : r ∈ preFiltered cx t rows fs := by
+  apply preFiltered_complete_of_leafSound q cx t rows fs r hnd hshape hr _ hs
+  intro kind hk l hl
+  cases hi : leafIndexKeys cx kind t l with
+  | none => exact leafSound_of_none q cx kind t r _ l hi
+  | some ks => exact covered_sound q cx t r kind l hk (hcov kind hk l hl (by simp [hi]))
+
+/-- Hence filtering the candidates selects the same rows as filtering the whole store: a row passes the
+    filter (and any further test `p`, e.g. authorisation) on the candidate list iff it does on the full list. -/
+theorem filter_preFiltered_mem_iff_partial (q : Quirks) (cx : Ctx) (t : Table) (rows : List Row) (fs : List Filter)
+    (p : Row → Bool) (hnd : (rows.map (Row.key t)).Nodup) (hshape : KeyShape t)
+    (hcov : ∀ r ∈ rows, ∀ kind, indexKind? t = some kind → ∀ l ∈ leavesOfList fs,
+      (leafIndexKeys cx kind t l).isSome → Covered cx t r kind l) (r : Row) :
+    r ∈ (preFiltered cx t rows fs).filter (fun r => semList q (mkView cx t r) fs && p r) ↔
+    r ∈ rows.filter (fun r => semList q (mkView cx t r) fs && p r) := by
+  simp only [List.mem_filter, Bool.and_eq_true]
+  constructor
+  · rintro ⟨hm, hs⟩
+    exact ⟨preFiltered_subset cx t rows fs r hm, hs⟩
+  · rintro ⟨hm, hs⟩
+    exact ⟨preFiltered_complete_partial q cx t rows fs r hnd hshape hm (hcov r hm) hs.1, hs⟩
+
+/-- The per-backend row loop returns the same set of rows with and without index pre-selection (negation
+    defect repaired, early cut aside), under the assumptions of `preFiltered_complete_partial` for the
+    rows of the store.  Partial: same exclusions as there; the order of the rows is not compared. -/
+theorem gatherRows_index_irrelevant_partial (q : Quirks) (pushDown : Bool) (cx : Ctx) (t : Table) (req : Request)
+    (hq : q.negOr = false)
+    (hnd : ((tableRows cx t).map (Row.key t)).Nodup) (hshape : KeyShape t)
+    (hcov : ∀ r ∈ tableRows cx t, ∀ kind, indexKind? t = some kind → ∀ l ∈ leavesOfList req.filter,
+      (leafIndexKeys cx kind t l).isSome → Covered cx t r kind l) (r : Row) :
+    r ∈ (gatherRows { q := q, useIndex := true, pushDown := pushDown, earlyCut := false } cx t req).hits.map (·.r) ↔
+    r ∈ (gatherRows { q := q, useIndex := false, pushDown := pushDown, earlyCut := false } cx t req).hits.map (·.r) := by
+  have hrm : ∀ (u : Bool) v fs, rowMatches { q := q, useIndex := u, pushDown := pushDown, earlyCut := false } v fs
+      = semList q v fs := by
+    intro u v fs
+    unfold rowMatches
+    split
+    · exact C01.matchAll_eq_semList q hq v fs
+    · rfl
+  have hid : ((fun (x : Hit) => x.r) ∘ fun r => ({ b := cx.b, r := r, keys := req.sort.map (sortKeyOf (mkView cx t r)) } : Hit)) = id := by
+    funext r; rfl
+  simp only [gatherRows, hrm, Bool.false_eq_true, if_false, if_true, List.map_map, hid, List.map_id]
+  exact filter_preFiltered_mem_iff_partial q cx t (tableRows cx t) req.filter (checkAuth cx t req.authUser) hnd hshape hcov r
+
+/-- Under the same assumptions the selected rows with and without index pre-selection are the same up to
+    order (no row is returned twice either way); in particular their number - the per-backend total - agrees. -/
+theorem filter_preFiltered_perm_partial (q : Quirks) (cx : Ctx) (t : Table) (rows : List Row) (fs : List Filter)
+    (p : Row → Bool) (hnd : (rows.map (Row.key t)).Nodup) (hshape : KeyShape t)
+    (hcov : ∀ r ∈ rows, ∀ kind, indexKind? t = some kind → ∀ l ∈ leavesOfList fs,
+      (leafIndexKeys cx kind t l).isSome → Covered cx t r kind l) :
+    ((preFiltered cx t rows fs).filter (fun r => semList q (mkView cx t r) fs && p r)).Perm
+      (rows.filter (fun r => semList q (mkView cx t r) fs && p r)) := by
+  have hr : rows.Nodup := nodup_of_nodup_keys hnd
+  rw [List.perm_ext_iff_of_nodup (List.Pairwise.filter _ (preFiltered_nodup cx t rows fs hr)) (List.Pairwise.filter _ hr)]
+  exact filter_preFiltered_mem_iff_partial q cx t rows fs p hnd hshape hcov
+
+/-- If moreover the store is sorted strictly by primary key, filtering the candidates yields exactly the
+    same list, order included, as filtering the whole store. -/
+theorem filter_preFiltered_eq_sorted_partial (q : Quirks) (cx : Ctx) (t : Table) (rows : List Row) (fs : List Filter)
+    (p : Row → Bool) (hsorted : rows.Pairwise (keyLt t)) (hshape : KeyShape t)
+    (hcov : ∀ r ∈ rows, ∀ kind, indexKind? t = some kind → ∀ l ∈ leavesOfList fs,
+      (leafIndexKeys cx kind t l).isSome → Covered cx t r kind l) :
+    (preFiltered cx t rows fs).filter (fun r => semList q (mkView cx t r) fs && p r) =
+      rows.filter (fun r => semList q (mkView cx t r) fs && p r) :=
+  eq_of_pairwise_of_mem_iff (keyLt_irrefl t) (keyLt_asymm t) _ _
+    (List.Pairwise.filter _ (preFiltered_sorted cx t rows fs hsorted)) (List.Pairwise.filter _ hsorted)
+    (filter_preFiltered_mem_iff_partial q cx t rows fs p (nodup_of_sorted hsorted) hshape hcov)
+
+/-- On a key-sorted store the per-backend row loop gives the identical result - rows, their order, sort
+    keys, total, early cut included - whether or not index pre-selection is used.  Partial: assumptions
+    of `preFiltered_complete_partial`, sortedness of the store, negation defect repaired. -/
+theorem gatherRows_index_irrelevant_sorted_partial (q : Quirks) (pushDown earlyCut : Bool) (cx : Ctx) (t : Table)
+    (req : Request) (hq : q.negOr = false)
+    (hsorted : (tableRows cx t).Pairwise (keyLt t)) (hshape : KeyShape t)
+    (hcov : ∀ r ∈ tableRows cx t, ∀ kind, indexKind? t = some kind → ∀ l ∈ leavesOfList req.filter,
+      (leafIndexKeys cx kind t l).isSome → Covered cx t r kind l) :
+    gatherRows { q := q, useIndex := true, pushDown := pushDown, earlyCut := earlyCut } cx t req =
+    gatherRows { q := q, useIndex := false, pushDown := pushDown, earlyCut := earlyCut } cx t req := by
+  have hrm : ∀ (u : Bool), (fun r => rowMatches { q := q, useIndex := u, pushDown := pushDown, earlyCut := earlyCut }
+        (mkView cx t r) req.filter && checkAuth cx t req.authUser r)
+      = (fun r => semList q (mkView cx t r) req.filter && checkAuth cx t req.authUser r) := by
+    intro u
+    funext r
+    congr 1
+    unfold rowMatches
+    split
+    · exact C01.matchAll_eq_semList q hq _ _
+    · rfl
+  have key := filter_preFiltered_eq_sorted_partial q cx t (tableRows cx t) req.filter
+    (checkAuth cx t req.authUser) hsorted hshape hcov
+  unfold gatherRows
+  simp only [hrm, if_true, Bool.false_eq_true, if_false, key]
+
+/-- Without assuming an order of the store: the per-backend total (early cut aside) does not depend on
+    index pre-selection. -/
+theorem gatherRows_index_total_partial (q : Quirks) (pushDown : Bool) (cx : Ctx) (t : Table) (req : Request)
+    (hq : q.negOr = false)
+    (hnd : ((tableRows cx t).map (Row.key t)).Nodup) (hshape : KeyShape t)
+    (hcov : ∀ r ∈ tableRows cx t, ∀ kind, indexKind? t = some kind → ∀ l ∈ leavesOfList req.filter,
+      (leafIndexKeys cx kind t l).isSome → Covered cx t r kind l) :
+    (gatherRows { q := q, useIndex := true, pushDown := pushDown, earlyCut := false } cx t req).total =
+    (gatherRows { q := q, useIndex := false, pushDown := pushDown, earlyCut := false } cx t req).total := by
+  have hrm : ∀ (u : Bool), (fun r => rowMatches { q := q, useIndex := u, pushDown := pushDown, earlyCut := false }
+        (mkView cx t r) req.filter && checkAuth cx t req.authUser r)
+      = (fun r => semList q (mkView cx t r) req.filter && checkAuth cx t req.authUser r) := by
+    intro u
+    funext r
+    congr 1
+    unfold rowMatches
+    split
+    · exact C01.matchAll_eq_semList q hq _ _
+    · rfl
+  have key := (filter_preFiltered_perm_partial q cx t (tableRows cx t) req.filter
+    (checkAuth cx t req.authUser) hnd hshape hcov).length_eq
+  unfold gatherRows
+  simp only [hrm, if_true, Bool.false_eq_true, if_false, List.length_map]
+  exact key
+
+/-- The code path of today without the early cut (index pre-selection + negation push-down) returns, on a
+    key-sorted store, exactly what the specification (full scan, Boolean semantics) returns.
+    Partial: assumptions of `preFiltered_complete_partial` and sortedness of the store. -/
+theorem gatherRows_code_nocut_eq_spec_sorted_partial (cx : Ctx) (t : Table) (req : Request)
+    (hsorted : (tableRows cx t).Pairwise (keyLt t)) (hshape : KeyShape t)
+    (hcov : ∀ r ∈ tableRows cx t, ∀ kind, indexKind? t = some kind → ∀ l ∈ leavesOfList req.filter,
+      (leafIndexKeys cx kind t l).isSome → Covered cx t r kind l) :
+    gatherRows { EvalMode.code Quirks.current with earlyCut := false } cx t req = gatherRows EvalMode.spec cx t req := by
+  have h1 := gatherRows_index_irrelevant_sorted_partial Quirks.current true false cx t req rfl hsorted hshape hcov
+  have hrm : ∀ v fs, rowMatches { q := Quirks.current, useIndex := false, pushDown := true, earlyCut := false } v fs
+      = rowMatches EvalMode.spec v fs := by
+    intro v fs
+    exact C01.matchAll_eq_semList Quirks.current rfl v fs
+  show gatherRows { q := Quirks.current, useIndex := true, pushDown := true, earlyCut := false } cx t req = _
+  rw [h1]
+  have hf : (fun r => rowMatches { q := Quirks.current, useIndex := false, pushDown := true, earlyCut := false }
+        (mkView cx t r) req.filter && checkAuth cx t req.authUser r)
+      = (fun r => rowMatches EvalMode.spec (mkView cx t r) req.filter && checkAuth cx t req.authUser r) := by
+    funext r; rw [hrm]
+  unfold gatherRows
+  simp only [hf]
+  rfl
+
+/-- non-vacuity of the assumptions of the theorems above: on the demo dataset the store is key-sorted
+    (hence has unique keys), the key shape holds, the recorded data assumption `groupsConsistent` holds, and
+    both host rows are `Covered` for the request `Filter: name =~ b` / `Filter: state = 1` /
+    `Filter: groups >= g` (a string look-up, a term the index ignores, and a group look-up) -/
+example :
+    (tableRows Demo.cx Demo.hosts).Pairwise (keyLt Demo.hosts) ∧ KeyShape Demo.hosts ∧
+    groupsConsistent Demo.cx.schema Demo.cx.b = true ∧
+    ∀ r ∈ tableRows Demo.cx Demo.hosts, ∀ kind, indexKind? Demo.hosts = some kind →
+      ∀ l ∈ leavesOfList [.leaf (Demo.nameLeaf .eqNc "b") false, .leaf Demo.stateLeaf false, .leaf Demo.groupLeaf false],
+        (leafIndexKeys Demo.cx kind Demo.hosts l).isSome → Covered Demo.cx Demo.hosts r kind l := by
+  have hsorted : (tableRows Demo.cx Demo.hosts).Pairwise (keyLt Demo.hosts) := by
+    have : ((tableRows Demo.cx Demo.hosts).map (Row.key Demo.hosts)).Pairwise (· < ·) := by decide
+    rw [List.pairwise_map] at this
+    exact this
+  have hcons : groupsConsistent Demo.cx.schema Demo.cx.b = true := by decide
+  refine ⟨hsorted, ⟨fun _ => rfl, fun h => absurd h (by decide)⟩, hcons, ?_⟩
+  intro r hr kind hk l hl hsome
+  have hkind : kind = .hosts := by
+    have : indexKind? Demo.hosts = some .hosts := by decide
+    rw [this] at hk; exact (Option.some.inj hk).symm
+  subst hkind
+  have hrows : tableRows Demo.cx Demo.hosts = Demo.cx.b.rows "hosts" := rfl
+  have hgrp := hostInGroups_of_groupsConsistent Demo.cx hcons r (hrows ▸ hr)
+  have hr' : r = Demo.rowB ∨ r = Demo.rowA := by
+    simpa [tableRows, Demo.hosts, Demo.cx, Backend.rows, Demo.backend] using hr
+  simp only [leavesOfList, leavesOf, List.append_nil, List.cons_append, List.nil_append, List.mem_cons,
+    List.not_mem_nil, or_false] at hl
+  rcases hl with rfl | rfl | rfl
+  · refine Covered.hostsName ⟨by decide, rfl, rfl, rfl⟩ rfl ?_
+    rcases hr' with rfl | rfl <;> decide
+  · simp [leafIndexKeys, Demo.stateLeaf, Demo.stateCol] at hsome
+  · refine Covered.hostsGroups (gs := r.strList "groups") ?_ rfl hgrp ⟨rfl, by decide⟩
+    apply listLeaf_of_local Demo.cx Demo.hosts r Demo.groupLeaf rfl rfl rfl (by decide)
+    intro v hv
+    rcases hr' with rfl | rfl
+    · exact ⟨[], by simpa [Row.cell?, Demo.rowB, Demo.groupLeaf, Demo.groupsCol] using hv.symm⟩
+    · exact ⟨["g"], by simpa [Row.cell?, Demo.rowA, Demo.groupLeaf, Demo.groupsCol] using hv.symm⟩
+
+/-- Why the group assumption in `Covered` cannot be dropped: on a backend where host `a` names group `g` but
+    no hostgroup `g` exists, the row satisfies `Filter: groups >= g`, yet index pre-selection returns no
+    candidate at all - the optimisation changes the answer on inconsistent backend data. -/
+theorem preFiltered_incomplete_without_group_consistency :
+    Cex.row ∈ tableRows Cex.cx Cex.hosts ∧
+    semList Quirks.current (mkView Cex.cx Cex.hosts Cex.row) [.leaf Cex.leaf false] = true ∧
+    preFiltered Cex.cx Cex.hosts (tableRows Cex.cx Cex.hosts) [.leaf Cex.leaf false] = [] := by
+  refine ⟨by simp [tableRows, Cex.hosts, Cex.cx, Backend.rows, Cex.backend], by decide, ?_⟩
+  rw [preFiltered_eq]
+  have hk : indexKind? Cex.hosts = some .hosts := by decide
+  have hi : tryIndexGroup (leafIndexKeys Cex.cx .hosts Cex.hosts) false [.leaf Cex.leaf false] = some [] := by
+    simp [tryIndexGroup, tryIndex, leafIndexKeys, Cex.leaf, Cex.groupsCol, findByKey, Cex.cx, Backend.rows, Cex.backend]
+  simp [hk, hi, selectByKeys, sortDedup]
+
+/-! ## Filter un-nesting -/
+
+/-- `optimizeFilterIndentation` (unwrapping a single non-negated top-level `And` group, repeatedly) does
+    not change which rows the filter list accepts - for any fuel and any filter list. -/
+theorem optimizeIndentation_sound (q : Quirks) (v : View) (n : Nat) (fs : List Filter) :
+    semList q v (optimizeIndentation n fs) = semList q v fs := by
+  induction n, fs using optimizeIndentation.induct with
+  | case1 fs => simp [optimizeIndentation]
+  | case2 fuel f fs ih =>
+    rw [optimizeIndentation, ih]
+    simp [semList, sem, semAll_eq_all]
+  | case3 n fs h1 h2 =>
+    rw [optimizeIndentation.eq_3 n fs h1 h2]
+
+/-- the same for the evaluation the code uses (negation push-down), once the negation defect is repaired -/
+theorem optimizeIndentation_sound_matchAll (q : Quirks) (hq : q.negOr = false) (v : View) (n : Nat) (fs : List Filter) :
+    matchAll q v (optimizeIndentation n fs) = matchAll q v fs := by
+  rw [C01.matchAll_eq_semList q hq, C01.matchAll_eq_semList q hq, optimizeIndentation_sound]
+
+/-- non-vacuity: a doubly wrapped filter is unwrapped to the bare term -/
+example : (optimizeIndentation 3 [.grp true [.grp true [.leaf Demo.stateLeaf false] false] false]).length = 1
+    ∧ ∃ l, optimizeIndentation 3 [.grp true [.grp true [.leaf Demo.stateLeaf false] false] false] = [.leaf l false] :=
+  ⟨rfl, _, rfl⟩
+
+/-! ## The regular-expression heuristic -/
+
+/-- A value without any regular-expression meta character and without a dot is never taken for a regular
+    expression by `hasRegexpCharacters` (so the optimised parser turns `~` into a substring test). -/
+theorem hasRegexpCharacters_plain (val : String)
+    (hmeta : ∀ c ∈ val.toList, c ∉ regexMetaChars) (hdot : '.' ∉ val.toList) :
+    hasRegexpCharacters val = false := by
+  unfold hasRegexpCharacters
+  have h1 : (val.toList.any fun c => regexMetaChars.contains c) = false := by
+    simp only [List.any_eq_false, List.contains_iff_mem]
+    exact fun c hc => by simpa using hmeta c hc
+  have h2 : val.toList.contains '.' = false := by simpa using hdot
+  simp only [h1, h2, Bool.false_eq_true, if_false]
+
+/-- A value containing a meta character is always taken for a regular expression. -/
+theorem hasRegexpCharacters_meta (val : String) (c : Char) (hc : c ∈ val.toList) (hm : c ∈ regexMetaChars) :
+    hasRegexpCharacters val = true := by
+  unfold hasRegexpCharacters
+  have h1 : (val.toList.any fun c => regexMetaChars.contains c) = true := by
+    simp only [List.any_eq_true, List.contains_iff_mem]
+    exact ⟨c, hc, hm⟩
+  simp only [h1, if_true]
+
+/-- Removing the `alnum . alpha` triples never introduces a dot: text without a dot passes unchanged. -/
+theorem removeDotTriples_no_dot : ∀ (cs : List Char), '.' ∉ cs → removeDotTriples cs = cs := by
+  intro cs
+  induction cs using removeDotTriples.induct with
+  | case1 a b rest h ih => intro hd; simp at hd
+  | case2 a b rest h ih => intro hd; simp at hd
+  | case3 c rest h ih =>
+    intro hd
+    rw [removeDotTriples.eq_2 c rest h, ih (fun hm => hd (List.mem_cons_of_mem _ hm))]
+  | case4 => intro _; rfl
+
+example : hasRegexpCharacters "srv01" = false ∧ hasRegexpCharacters "srv.*" = true
+    ∧ hasRegexpCharacters "www.example.com" = false := by decide
+
 end Lmd.C07
